@@ -110,6 +110,11 @@ pub open spec fn skip_inv(o: RView, c: RView) -> bool {
     &&& o.leb_len(0) == (c.start - o.start) + leb_len_in(o.root, c.start as int, o.end() as int)
 }
 
+pub proof fn lemma_leb_len_pos(root: Seq<u8>, p: int, e: int)
+    ensures leb_len_in(root, p, e) >= 1,
+{
+}
+
 pub proof fn lemma_leb_init(o: RView)
     ensures uleb_inv(o, o, 0, 0), sleb_inv(o, o, 0, 0), skip_inv(o, o), o.leb_len(0) >= 1,
 {
@@ -161,6 +166,8 @@ pub proof fn lemma_uleb_reject_10th(o: RView, c: RView, acc: nat, byte: u8)
     let e = o.end() as int;
     let low = (byte & 0x7f) as nat;
     lemma2_to64_rest();
+    assert(byte == o.root[p] && p < e);
+    lemma_leb_len_pos(o.root, p + 1, e);
     assert(byte & 0x80 == 0 && byte != 0 && byte != 1 ==> byte & 0x7f >= 2) by (bit_vector);
     if byte & 0x80 == 0 {
         assert(uleb_in(o.root, p, e) == low);
@@ -177,6 +184,8 @@ pub proof fn lemma_uleb_reject_3rd(o: RView, c: RView, acc: nat, byte: u8)
     let e = o.end() as int;
     let low = (byte & 0x7f) as nat;
     lemma2_to64();
+    assert(byte == o.root[p] && p < e);
+    lemma_leb_len_pos(o.root, p + 1, e);
     assert(byte & 0x80 == 0 && byte > 3 ==> byte & 0x7f >= 4) by (bit_vector);
     if byte & 0x80 == 0 {
         assert(uleb_in(o.root, p, e) == low);
@@ -225,6 +234,8 @@ pub proof fn lemma_sleb_reject_10th(o: RView, c: RView, acc: nat, byte: u8)
     let e = o.end() as int;
     let low = (byte & 0x7f) as int;
     lemma2_to64_rest();
+    assert(byte == o.root[p] && p < e);
+    lemma_leb_len_pos(o.root, p + 1, e);
     assert(byte & 0x80 == 0 && byte != 0 && byte != 0x7f ==> (byte & 0x40 == 0 ==> 1 <= byte & 0x7f) && (byte & 0x40 != 0 ==> byte & 0x7f <= 126)) by (bit_vector);
     if byte & 0x80 == 0 {
         if byte & 0x40 != 0 {
@@ -244,4 +255,24 @@ pub proof fn lemma_skip_step(o: RView, c: RView, c2: RView, byte: u8)
         byte & 0x80 == 0 ==> o.leb_ok(0) && adv(o, c2, o.leb_len(0)),
 {
     assert(byte == o.root[c.start as int]);
+}
+
+/// the accepted 10th bytes of a signed LEB128: 0x00 adds nothing, 0x7f (sign bit set, low bits 127) subtracts 2^63
+pub proof fn lemma_sleb_step_10th(o: RView, c: RView, c2: RView, acc: nat, byte: u8)
+    requires sleb_inv(o, c, 9, acc), adv(c, c2, 1), byte == c.at(0), byte == 0x00 || byte == 0x7f,
+    ensures
+        o.leb_ok(0) && o.leb_len(0) == 10 && adv(o, c2, 10) && o.at(9) == byte,
+        o.sleb(0) == (if byte == 0 { acc as int } else { acc - pow2(63) }),
+{
+    lemma_sleb_step(o, c, c2, 9, acc, byte);
+    lemma_pow2_7(9);
+    let w = pow2(63);
+    assert(byte == 0x7fu8 ==> byte & 0x80 == 0 && byte & 0x40 != 0 && byte & 0x7f == 0x7f) by (bit_vector);
+    assert(byte == 0u8 ==> byte & 0x80 == 0 && byte & 0x40 == 0 && byte & 0x7f == 0) by (bit_vector);
+    assert(byte == o.root[(o.start + 9) as int]);
+    if byte == 0 {
+        assert(0 * w == 0) by (nonlinear_arith);
+    } else {
+        assert((acc + 127 * w) - 128 * w == acc - w) by (nonlinear_arith);
+    }
 }
